@@ -14,7 +14,9 @@
 From stdpp Require Import gmap list.
 From Coq Require Import NArith ZArith.
 From VFS Require Import Core.Types Core.Prog Core.Calls Base.MemFS Base.Handles Base.Store Layer.VfsPath Layer.Overlay
-  Proofs.Leaves Proofs.MemProofs Proofs.ConcProofs Proofs.OvlProofs Proofs.OvlList Proofs.OvlLife.
+  Spec.Tree Proofs.Leaves Proofs.MemProofs Proofs.ConcProofs Proofs.OvlProofs Proofs.OvlList Proofs.OvlLife Proofs.OvlDeep.
+
+Notation mstate := (gmap (list (list N)) memfile).
 
 (** while the marker of a path is present - and the write layer does not hold the path itself: an entry
     of the write layer is newer than a marker (repair a7ee48b) - the path is absent from exists,
@@ -144,6 +146,45 @@ Theorem C10_recreated_dir_is_empty : forall lg ft (s0 s1 : gmap (list (list N)) 
   run bhandler (ovl_read_dir (v0, []) [(v1, [])] p) (mstore2 s0 s1 hs lg ft) = (mstore2 s0 s1 hs lg ft, Ok []).
 Proof. exact recreated_dir_is_empty. Qed.
 
+(** ** persistence across later operations.  [view s0 s1 q]: what the overlay shows at q; [view_step s1 p a b]: going
+    from write-layer state a to b changes the view at no path of the caller's namespace other than p.  The
+    mutating calls characterised in C09 (create_dir, create_file, remove_file, remove_dir at any depth) are such
+    steps for the path they name; along ANY chain of such steps a path that no step names keeps showing what it
+    showed - a deleted entry stays absent, with the lower layer's bytes hidden, however many operations follow. *)
+Theorem C10_unnamed_paths_keep_their_view : forall (s1 a c : mstate) (ps : list path) (q : path),
+  view_chain s1 a ps c -> user_path q -> q ∉ ps -> view c s1 q = view a s1 q.
+Proof. exact chain_keeps_view. Qed.
+
+Theorem C10_deleted_stays_deleted : forall (s1 a c : mstate) (ps : list path) (q : path),
+  view_chain s1 a ps c -> user_path q -> q ∉ ps -> view a s1 q = None -> view c s1 q = None.
+Proof. intros s1 a c ps q Hc Hq Hn Ha. rewrite (chain_keeps_view s1 a c ps q Hc Hq Hn). exact Ha. Qed.
+
+(** the calls are such steps (the existential states are those of the C09 theorems) *)
+Theorem C10_create_dir_is_a_step : forall lg ft (s0 s1 : mstate) hs (p : path),
+  wf s0 -> p <> [] -> reachable s0 s1 p -> view s0 s1 p = None ->
+  (forall g, s0 !! whiteout_path (v0, []) p = Some g -> f_type g = File) ->
+  exists s0', run bhandler (ovl_impl (v0, []) [(v1, [])] (CCreateDir p)) (mstore2 s0 s1 hs lg ft) = (mstore2 s0' s1 hs lg ft, Ok tt) /\
+              view_step s1 p s0 s0'.
+Proof.
+  intros lg ft s0 s1 hs p Hwf Hp Hr Hn Hm. destruct (create_dir_deep lg ft s0 s1 hs p Hwf Hp Hr Hn Hm) as (s0' & Hrun & _ & Hv).
+  exists s0'. split; [exact Hrun|]. eapply eq_view_step. exact Hv.
+Qed.
+
+Theorem C10_remove_file_is_a_step : forall lg ft (s0 s1 : mstate) hs (p : path) (b : list N),
+  wf s0 -> p <> [] -> user_path p -> no_collision p ->
+  (is_Some (s0 !! p) -> s0 !! whiteout_path (v0, []) p = None) ->
+  view s0 s1 p = Some (NFile b) ->
+  Forall (not_file s0) (prefixes (removelast (whiteout_path (v0, []) p))) ->
+  exists s0', run bhandler (ovl_impl (v0, []) [(v1, [])] (CRemoveFile p)) (mstore2 s0 s1 hs lg ft) =
+                (mstore2 s0' s1 (hs ++ [HClosed]) lg ft, Ok tt) /\
+              view_step s1 p s0 s0' /\ view s0' s1 p = None.
+Proof.
+  intros lg ft s0 s1 hs p b Hwf Hp Hu Hnc Hi Hv Hf.
+  destruct (remove_file_deep lg ft s0 s1 hs p b Hwf Hp Hu Hnc Hi Hv Hf) as (s0' & Hrun & _ & Hview).
+  exists s0'. split; [exact Hrun|]. split; [eapply eq_view_step; exact Hview|].
+  rewrite (Hview p Hu). now rewrite decide_True.
+Qed.
+
 Example C10_example :
   whiteout_path (v0, [[117%N]]) [[97%N]; [98%N]] = [[117%N]; whiteout_name; [97%N]; [98%N; 95%N; 119%N; 111%N]] /\
   whiteout_path (v0, []) [] = [whiteout_name; wo_suffix].
@@ -162,3 +203,7 @@ Print Assumptions C10_recreated_dir_clears_marker.
 Print Assumptions C10_recreated_dir_is_empty.
 Print Assumptions C10_dir_removal_sets_marker.
 Print Assumptions C10_removing_a_shadowing_file.
+Print Assumptions C10_unnamed_paths_keep_their_view.
+Print Assumptions C10_deleted_stays_deleted.
+Print Assumptions C10_create_dir_is_a_step.
+Print Assumptions C10_remove_file_is_a_step.
